@@ -299,6 +299,8 @@ def generate() -> str:
 
 
 EXTRA_SECTIONS: list = []
+from extract_expr import expr_section  # noqa: E402  (C16)
+EXTRA_SECTIONS.append(expr_section)
 
 
 def main(write: bool = True) -> int:
